@@ -140,6 +140,22 @@ def priors():
     yield 'entry_names_directory', entry_is_dir
 
 
+    def tags_rich():
+        files = dict(B)
+        files.update({'files/aux1': b'aux', 'p-1.ebuild': b'eb', 'metadata.xml': b'<x/>', 'out/o1': b'outside'})
+        return Scenario(files, [
+            MSpec(TOP, [_F('f0'), ('F', 'EBUILD', 'p-1.ebuild', H1), ('F', 'MISC', 'metadata.xml', H1),
+                        ('F', 'AUX', 'files/aux1', H1), _F('g/f3', ('MD5',)), _F('out/o1', ('MD5', 'SHA1')),
+                        ('M', 'd/Manifest.gz', H1),
+                        ('L', 'DIST a.tar 1 SHA1 ' + 'a' * 40), ('L', 'DIST b.tar 2 SHA1 ' + 'b' * 40),
+                        ('L', 'IGNORE ign'), ('L', 'IGNORE ign2'),
+                        ('L', 'TIMESTAMP 2017-01-01T00:00:00Z')]),
+            MSpec('d/Manifest.gz', [('F', 'MISC', 'd/f1', H1), ('F', 'EBUILD', 'd/e/f2', H1),
+                                    ('L', 'DIST c.tar 3 SHA1 ' + 'c' * 40), ('L', 'IGNORE e/ign3')]),
+        ], raw={'ign/junk': b'j'})
+    yield 'tags_rich', tags_rich
+
+
 EDITS = ['none', 'alter_same', 'alter_size', 'delete', 'add', 'add_dir', 'delete_dir', 'alter_two']
 
 
